@@ -12,6 +12,7 @@ import Sbepp.Drive.C16
 import Sbepp.Drive.C06
 import Sbepp.Drive.C18
 import Sbepp.Drive.C04
+import Sbepp.Drive.C07
 import Sbepp.Drive.C08
 import Sbepp.Drive.C10
 import Sbepp.Drive.Wire
@@ -29,6 +30,7 @@ def dispatch (line : String) : String :=
   else if line.startsWith "checked " then C06.handle (payloadOf line "checked")
   else if line.startsWith "traits " then C18.handle (payloadOf line "traits")
   else if line.startsWith "cursor " then C04.handle (payloadOf line "cursor")
+  else if line.startsWith "wellformed " then C07.handle (payloadOf line "wellformed")
   else if line.startsWith "verdict " then C08.handle (payloadOf line "verdict")
   else if line.startsWith "guard " then C10.handle (payloadOf line "guard")
   else if line.startsWith "ctrav " then C10.handleCursor (payloadOf line "ctrav")
